@@ -68,7 +68,7 @@ for (n, tier) in [("dirent_rt_storage_2", "quick"), ("dirent_rt_root", "quick"),
 harness("dirent_unallocated_blank", props=["C03"], timeout=300, mem=4,
         what="DirEntry::unallocated().write_to produces the blank entry of MS-CFB 2.6.3 (all zeros except three NOSTREAM links)",
         bounds="concrete", functions=["DirEntry::unallocated", "DirEntry::write_to"], assumes=[])
-harness("dirent_maxname_concrete", props=["C09"], tier="thorough", timeout=2400, mem=9,
+harness("dirent_maxname_concrete", props=["C09"], tier="thorough", timeout=5400, mem=16,
         what="a 31-unit name is written verbatim with length field 64 and read back by both readers in both versions",
         bounds="one concrete 31-character name", functions=DIRENT_F, assumes=[])
 for (n, tier) in [("dirent_root_name_lower", "quick"), ("dirent_root_name_upper", "thorough"), ("dirent_root_name_mixed", "thorough"),
@@ -136,7 +136,7 @@ for (n, tier) in [("stor_write_mid", "quick"), ("stor_write_append", "thorough")
                   ("stor_resize_in_sector", "quick"), ("stor_resize_to_128", "thorough"), ("stor_resize_to_129", "quick"),
                   ("stor_resize_shrink_64", "thorough"), ("stor_resize_shrink_63", "thorough"), ("stor_resize_to_0", "quick"),
                   ("stor_resize_reuse", "quick"), ("stor_resize_frag", "thorough")]:
-    harness(n, props=["C01", "C03", "C08", "C07", "C02", "C06", "C12", "C04"] if "read" in n else ["C01", "C03", "C08", "C07", "C02"], tier=tier, timeout=3000, mem=9,
+    harness(n, props=["C01", "C03", "C08", "C07", "C02", "C06", "C12", "C04"] if "read" in n else ["C01", "C03", "C08", "C07", "C02"], tier=tier, timeout=3600, mem=14,
             stubs=[FMT] + ([] if "read" in n else [STUB_COPY]),
             what="real storage functions on a 100-byte stream in a (possibly fragmented) mini chain next to another stream: result, new length, placement by the 4096 cutoff, chain length == ceil(size/64), every stored byte (independent FAT/MiniFAT walk over the image) equals the flat-array model, gained bytes are zero even when reused mini sectors / slack hold arbitrary bytes, the other stream and the rest of the image untouched",
             bounds="offset/length/new size concrete per instance at and next to the 64-byte boundary; all data bytes and slack symbolic",
@@ -173,8 +173,8 @@ for (n, tier) in [("open_dev_all_permissive", "thorough")] + [("open_dev_strict_
             what="open_internal on the foreign-layout image with deviations planted in the bytes (D1 wrong FAT sector count, D2 wrong MiniFAT sector count, D3 non-zero v3 directory sector count, D5 FAT sector not marked in the FAT, D6 zero-padded FAT, D7 adjacent red nodes, D8 over-long MiniFAT): all at once are accepted by permissive open with the caches, lookups and stream bytes of the undamaged file; each alone is rejected by strict open",
             bounds="one 6-sector v3 image; mini stream contents and metadata symbolic; deviation set concrete per instance", functions=OPEN_F, assumes=[A_SHAPE, A_UPTABLE])
 harness("open_counts_alloc", props=["C05", "C16"], tier="thorough", timeout=7200, mem=16, fs=8192, stubs=[FMT, STUB_UP, "with_capacity"],
-        what="open_internal (permissive) with the header's four count fields (directory / FAT / MiniFAT / DIFAT sectors) ANY u32: accepted, table sizes come from the chains, and no Vec::with_capacity call asks for more elements than a small multiple of the file's size (stub asserts the bound; a capacity is only a hint)",
-        bounds="6-sector v3 image; the four count fields symbolic (all u32)", functions=OPEN_F, assumes=[A_SHAPE, A_UPTABLE, "stub: Vec::with_capacity(n) asserts n <= 4 x file size and returns an empty vector (capacity is a hint; growth on push is real)"])
+        what="open_internal (permissive) with the header's four count fields (directory / FAT / MiniFAT / DIFAT sectors) ANY u32: accepted, table sizes come from the chains, and no Vec::with_capacity call asks for more elements than a small multiple of the file's size (stub asserts the bound, then reserves)",
+        bounds="6-sector v3 image; the four count fields symbolic (all u32)", functions=OPEN_F, assumes=[A_SHAPE, A_UPTABLE, "stub: Vec::with_capacity(n) asserts n <= 4 x file size, then Vec::new() + reserve_exact(n)"])
 for (n, tier) in [("open_uncovered_reuse", "thorough"), ("open_uncovered_grow", "thorough")]:
     harness(n, props=["C11", "C02", "C03", "C15"], tier=tier, timeout=7200, mem=16, fs=8192, stubs=[FMT, STUB_COPY, STUB_UP],
             what="open_internal on a file with MORE sectors (131) than its single FAT sector covers (128): if accepted, the cached FAT is not longer than what the FAT sectors can record, no uncovered sector is on the free list, and allocate_sector afterwards works - reuse of a free sector below the coverage / growth by FAT sector 128 over the unowned trailing sectors, written through",
@@ -286,7 +286,7 @@ for c in seqs.cases():
 # ---------------------------------------------------------------- lock discipline (variant lock)
 A_LOCK = "overlay: std::sync::RwLock replaced by an instrumented single-threaded lock that asserts no guard is live on acquisition and lets try_read/try_write fail nondeterministically; thread schedules are NOT explored"
 for n in ["c14_lookups", "c14_iter_root", "c14_iter_walk", "c14_iter_storage", "c14_stream_rw", "c14_stream_setlen", "c14_stream_big_window"]:
-    harness(n, props=["C14"], timeout=3000, mem=10, variant=("buf8" if n.startswith("c14_stream") else "lock"), fs=8192, stubs=([FMT, "Stream :: minialloc"] if n.startswith("c14_stream") else [FMT, STUB_UP]),
+    harness(n, props=["C14"], timeout=3000, mem=(16 if n == "c14_stream_big_window" else 10), variant=("buf8" if n.startswith("c14_stream") else "lock"), fs=8192, stubs=([FMT, "Stream :: minialloc"] if n.startswith("c14_stream") else [FMT, STUB_UP]),
             what="every read-only method, every iterator step (with read-only calls interleaved while the iterator is alive) and every stream operation acquires the lock only while no guard is live and releases it before returning",
             bounds="3-entry file; one call sequence; symbolic contents/metadata", functions=["CompoundFile::*(read-only)", "Entries::next", "Entries::new", "Stream::*"],
             assumes=[A_LOCK, A_SHAPE, A_UPTABLE])
